@@ -285,14 +285,14 @@ assert self.referenced_symbols[symbol] == c, 'with the count of this scope'
         def __repr__(self):
             return 'Node'
     fresh_tables = ['self._closed is False', 'len(self.referenced_symbols) == 0', 'self.local_declared_symbols == set()',
-                    'self.children == []', 'len(self.remapped_symbols) == 0', 'self.parent is parent', 'self.node is node']
+                    'self.children == []', 'len(self.remapped_symbols) == 0', 'self.parent is parent']
     cs.append(Contract(MOD + ':Scope.__init__', params={'self': Obj(mod.Scope, {}), 'node': NodeT(), 'parent': PARENT}, ensures=fresh_tables, env=base_env))
     cs.append(Contract(MOD + ':Scope.__init__', params={'self': Obj(mod.Scope, {}), 'node': NodeT()},
                        ensures=[x.replace('is parent', 'is None') for x in fresh_tables], env=base_env, notes='no parent given'))
     SCOPE_PARENT = Obj(mod.Scope, {})
     cs.append(Contract(MOD + ':CatchScope.__init__', params={'self': Obj(mod.CatchScope, {}), 'node': NodeT(), 'parent': SCOPE_PARENT},
                        ensures=['self._closed is False', 'self.catch_symbol == node.identifier.value', 'self.catch_symbol_usage == 0', 'self.children == []',
-                                'len(self.remapped_symbols) == 0', 'self.parent is parent', 'self.node is node'], env=base_env))
+                                'len(self.remapped_symbols) == 0', 'self.parent is parent'], env=base_env))
     cs.append(Contract(MOD + ':CatchScope.__init__', params={'self': Obj(mod.CatchScope, {}), 'node': NodeT(), 'parent': OneOf(Const(None), Parent())},
                        raises={'TypeError': True}, ensures=['False'], env=base_env, notes='parent is not a Scope'))
     # nest / funcdecl / catchctx: the new scope is of the right class, hangs below this one and is its last child
@@ -305,7 +305,7 @@ assert self.referenced_symbols[symbol] == c, 'with the count of this scope'
             params = {'self': Obj(selfcls, {'children': Const0List()}), 'node': NodeT()}
             params.update(args)
             cs.append(Contract(MOD + ':Scope.%s' % meth, params=params,
-                               ensures=['type(result) is %s' % cls, 'result.parent is self', 'result.node is node', 'len(self.children) == old(len(self.children)) + 1',
+                               ensures=['type(result) is %s' % cls, 'result.parent is self', 'len(self.children) == old(len(self.children)) + 1',
                                         'self.children[-1] is result', 'result._closed is False', 'result.children == []', 'len(result.remapped_symbols) == 0'],
                                modifies=['self.children'], env=dict(base_env, Scope=mod.Scope, CatchScope=mod.CatchScope),
                                notes='%s from a %s' % (cls, selfcls.__name__)))
